@@ -276,6 +276,15 @@ class C14(Prop):
                                           'beh': beh, 'np': np_,
                                           'trigger': trig[i % 3]}})
                     i += 1
+        # a watcher defined empty (numprocesses = 0, scaled up later): only
+        # before_start and after_start are consulted, and they gate the start
+        # all the same
+        for combo in itertools.product(vals, repeat=2):
+            hooks = dict(zip(('before_start', 'after_start'), combo))
+            for t in trig:
+                cases.append({'c14': {'kind': 'start', 'hooks': hooks,
+                                      'beh': 'obedient', 'np': 0,
+                                      'trigger': t}})
         for combo in itertools.product(vals, repeat=2):
             hooks = dict(zip(('before_stop', 'after_stop'), combo))
             for beh in ('obedient', 'stubborn'):
@@ -305,7 +314,8 @@ class C14(Prop):
         cases = self.all_cases()
         if tier == 'quick':
             rng = random.Random('c14/%s' % master)
-            cases = [c for c in cases if rng.random() < 0.1]
+            cases = [c for c in cases if rng.random() < 0.1 or
+                     c['c14'].get('np') == 0]
         return cases
 
     def materialize(self, case):
